@@ -231,6 +231,14 @@ struct Q10 { #[scylla(flatten)] r: Q2b, e: i32 } }
 fam! { #[derive(SerializeRow)]
 struct F10 { #[scylla(flatten)] q: Q10, #[scylla(flatten)] p: Q1 } }
 
+// an empty struct, flattened (outside rdesc_wf: the documented table is not applied to these two)
+fam! { #[derive(SerializeRow)]
+struct E0 {} }
+fam! { #[derive(SerializeRow)]
+struct F11 { #[scylla(flatten)] e: E0, x: i32 } }
+fam! { #[derive(SerializeRow)]
+struct F12 { #[scylla(flatten)] e: E0, #[scylla(flatten)] q: Q2b } }
+
 // ------------------------------------------------------------------ errors -> class strings
 
 fn ser_err_str(e: &SerializationError) -> String {
@@ -579,6 +587,8 @@ fn registry() -> Vec<Entry> {
         f_entry!(F08, "o/a:i;q:{on/b:t;c:I}"),
         f_entry!(F09, "on/a:i;q:{o/b:t;c:I}"),
         f_entry!(F10, "-/q:{-/r:{-/c:I};e:i};p:{-/y:t;z:I}"),
+        f_entry!(F11, "-/e:{-/};x:i"),
+        f_entry!(F12, "-/e:{-/};q:{-/c:I}"),
     ]
 }
 
@@ -859,7 +869,7 @@ impl Gen<'_> {
         let k = base.len();
         // (a) every permutation of the struct's own columns / fields
         let perms = permutations(&base);
-        let reps = if thorough { 3 } else { 1 };
+        let reps = if thorough { 4 } else { 2 };
         for p in &perms {
             for _ in 0..reps {
                 self.cases_for_db(e, &sh, p, 1, k <= 3);
@@ -946,17 +956,17 @@ impl Gen<'_> {
     fn random(&mut self, e: &Entry) {
         let sh = parse_shape(e.desc);
         let mut db: Vec<(String, String)> = vec![];
+        // mostly valid: 3 of 5 cases list exactly the struct's fields (in a random order); the
+        // others drop / retype fields, add extras (unknown names, Rust identifiers of renamed
+        // fields) and duplicates
+        let valid = self.r.chance(3, 5);
         for (n, t) in &sh.bound {
-            if !self.r.chance(1, 6) {
-                let ty = if self.r.chance(1, 12) { self.r.pick(&["i", "t", "b"]).to_string() } else { db_ty_of(*t).to_string() };
+            if valid || !self.r.chance(1, 5) {
+                let ty = if !valid && self.r.chance(1, 10) { self.r.pick(&["i", "t", "b"]).to_string() } else { db_ty_of(*t).to_string() };
                 db.push((n.clone(), ty));
             }
         }
-        let extras = match self.r.below(8) {
-            0 => 2,
-            1 | 2 => 1,
-            _ => 0,
-        };
+        let extras = if valid { 0 } else { match self.r.below(6) { 0 => 2, 1 | 2 => 1, _ => 0 } };
         for _ in 0..extras {
             let n = if self.r.chance(1, 4) && !sh.idents.is_empty() {
                 self.r.pick(&sh.idents).clone()
@@ -967,14 +977,18 @@ impl Gen<'_> {
                 db.push((n, self.r.pick(&["i", "t", "b"]).to_string()));
             }
         }
-        if self.r.chance(1, 15) && !db.is_empty() {
+        if !valid && self.r.chance(1, 12) && !db.is_empty() {
             let d = self.r.pick(&db).clone();
             db.push(d);
         }
-        match self.r.below(4) {
-            0 => {}
-            1 => db.reverse(),
-            _ => self.r.shuffle(&mut db),
+        let ordered = e.desc.split('/').next().unwrap().contains('o');
+        // ordered structs: keep the declared order in most valid cases, otherwise they only see rejections
+        if !(valid && ordered && self.r.chance(4, 5)) {
+            match self.r.below(4) {
+                0 => {}
+                1 => db.reverse(),
+                _ => self.r.shuffle(&mut db),
+            }
         }
         self.cases_for_db(e, &sh, &db, 2, false);
     }
